@@ -68,10 +68,20 @@ Print Assumptions changeBasis_axis_independent.
     expand_dims to the np.sum): towards Cardinal it is T, towards Chebyshev the inverse, with
     inverseTranspose=True the inverse transpose of the matrix used without it; 'Array' axes are
     skipped whatever label is requested for them *)
+Fixpoint mpar (m : mexpr) : bool * bool :=     (* (inversions mod 2, transpositions mod 2) *)
+  match m with
+  | MT => (false, false)
+  | MInv a => (negb (fst (mpar a)), snd (mpar a))
+  | MTr a => (fst (mpar a), negb (snd (mpar a)))
+  end.
+(** compared up to spelling: inversion and transposition are commuting involutions, so the
+    matrix is determined by the two parities (transpose(inv(inv(T))) and transpose(T) are the
+    same fact).  Extracted for every direction / end-point flag and ranks 1..6, which must all
+    agree. *)
 Theorem changeBasis_matrix_expression :
-  gen_cb_matrix false false = MT /\
-  gen_cb_matrix true false = MInv (gen_cb_matrix false false) /\
-  (forall b, gen_cb_matrix b true = MTr (MInv (gen_cb_matrix b false))) /\
+  mpar (gen_cb_matrix false false) = mpar MT /\
+  mpar (gen_cb_matrix true false) = mpar (MInv (gen_cb_matrix false false)) /\
+  (forall b, mpar (gen_cb_matrix b true) = mpar (MTr (MInv (gen_cb_matrix b false)))) /\
   gen_cb_skips_array_axes = true.
 Proof. repeat split; try reflexivity. intro b; destruct b; reflexivity. Qed.
 Print Assumptions changeBasis_matrix_expression.
@@ -293,17 +303,18 @@ Print Assumptions evaluate_indices_are_nodes.
     checks exactly this on every run: the model matrix applied to the implementation's
     Cardinal -> Chebyshev output reproduces the input).  Conclusions: Chebyshev -> Cardinal ->
     Chebyshev returns the coefficients (uses injectivity of the basis matrix, proved below
-    from the roots bound and the exact degree of T_n) and Cardinal -> Chebyshev -> Cardinal
-    returns the grid values.  Not proved: that such an [inv] exists (surjectivity of T, i.e.
+    from the roots bound and the exact degree of T_n); Cardinal -> Chebyshev -> Cardinal
+    returning the grid values IS the hypothesis (measured, not concluded).  Not proved: that such an [inv] exists (surjectivity of T, i.e.
     "injective square matrix is invertible"). *)
 Theorem change_basis_roundtrip_from_residual : forall d ep M N grid (inv : list R -> list R),
   grid_ok d M N grid -> sizes_ok d M N ->
   let n := length (cfg_range (cfg_changeBasis d ep M N)) in
   let T := tnMatrix ROps d ep grid M N in
   (forall v, length v = n -> length (inv v) = n /\ omatvec ROps T (inv v) = v) ->
-  (forall c, length c = n -> inv (omatvec ROps T c) = c) /\
-  (forall v, length v = n -> omatvec ROps T (inv v) = v).
-Proof. exact roundtrip_from_residual. Qed.
+  forall c, length c = n -> inv (omatvec ROps T c) = c.
+Proof.
+  intros d ep M N grid inv G HS n T H. exact (proj1 (roundtrip_from_residual d ep M N grid inv G HS H)).
+Qed.
 Print Assumptions change_basis_roundtrip_from_residual.
 
 (** the Chebyshev coefficients of given grid values are unique *)
@@ -461,4 +472,17 @@ Example integrate_exact_hypotheses :
 Proof.
   repeat split; cbn; try lia. intro t. unfold trigpoly. cbn.
   rewrite Rmult_0_l, cos_0. ring.
+Qed.
+
+(** the hypothesis of [change_basis_roundtrip_from_residual] is satisfiable: M = 2, z without end
+    points: T is the 1x1 matrix (T_2(0) - 1) = (-2), its inverse divides by -2 *)
+Example roundtrip_hypothesis_satisfiable :
+  let T := tnMatrix ROps Dz false [-1; 0; 1] 2 3 in
+  length (cfg_range (cfg_changeBasis Dz false 2 3)) = 1%nat /\
+  forall v, length v = 1%nat ->
+    length (map (fun x => x / -2) v) = 1%nat /\ omatvec ROps T (map (fun x => x / -2) v) = v.
+Proof.
+  cbn zeta. split; [reflexivity|]. intros v L.
+  destruct v as [|x [|y v]]; try discriminate L. split; [reflexivity|].
+  unfold omatvec, tnMatrix, cfg_range, arange. cbn. f_equal. field.
 Qed.
